@@ -80,7 +80,9 @@ def run_check(prop: str, tier: str = "quick", seed: int = 0, replay: str | None 
     modname = f"checks.{prop.lower()}"
     os.environ["VERIF_TIER"] = tier
     chk = importlib.import_module(modname)
-    work = WORK / f"{prop}_{tier}"
+    # runs against another checkout (VERIF_SRC: mutants, seeded changes) get their own directory so that they can run next
+    # to a check of /repo itself
+    work = WORK / (f"{prop}_{tier}" + (f"_src{os.getpid()}" if os.environ.get("VERIF_SRC") else ""))
     shutil.rmtree(work, ignore_errors=True)
     work.mkdir(parents=True, exist_ok=True)
     log = (lambda *a: print(*a, flush=True)) if verbose else (lambda *a: None)
@@ -222,7 +224,7 @@ def run_check(prop: str, tier: str = "quick", seed: int = 0, replay: str | None 
 
     if not replay and not os.environ.get("VERIF_SRC"):   # evidence only from runs against /repo itself
         write_evidence(chk, prop, tier, seed, obs, enum_stats, nviol, known_hits, time.time() - t0, drift)
-    if not keep_work and nviol == 0:
+    if not keep_work and (nviol == 0 or os.environ.get("VERIF_SRC")):
         shutil.rmtree(work, ignore_errors=True)
     log(f"[{prop}] {tier}: {len(obs)} observations validated by TLC, {nviol} violations, "
         f"{sum(known_hits.values())} known-finding hits, {time.time() - t0:.1f}s")
